@@ -47,6 +47,7 @@ package drpcserver
 //@   ghost after:Err cerr = ret
 //@   ghost entry temp = false
 //@   ghost after:isTemporary temp = ret
+//@   check [C12.accepted-conn-served] eventCount("invoke:Accept") == 1 && aerr == nil ==> eventAfterLast("invoke:Accept", "call:(*Tracker).Run")
 //@   check [C12.accept-error-classified] aerr != nil && cerr == nil && eventCount("invoke:Accept") == 1 ==> eventCount("call:isTemporary") == 1
 //@   check [C12.listener-error-reported] eventCount("call:isTemporary") == 1 && !temp ==> err != nil
 //@   check [C12.cancel-then-wait] eventCount("call:(*Tracker).Cancel") == 1 && eventCount("call:(*Tracker).Wait") == 1 && eventAfterLast("call:(*Tracker).Cancel", "call:(*Tracker).Wait")
